@@ -306,15 +306,19 @@ func (g *vfGamma) requestParts(r *vfRecipe) (string, []vfHdr, []byte) {
 	for i := 1; i <= rc.Nrr; i++ {
 		rrs = append(rrs, g.rtEntry(fmt.Sprintf("sip:%s:5060;lr", g.ip(fmt.Sprintf("10.0.3.%d", i)))))
 	}
-	tohost := map[string]string{"exact": "e.x", "wild": "w.y"}[rc.To]
+	tohost := map[string]string{"exact": "e.x", "wild": "w.y", "ext": "e.xyz", "pre": "pe.x"}[rc.To]
 	if tohost == "" {
 		tohost = "z.z"
 	}
 	X := g.extHeaders()
 	body := g.body()
 	V, RT, R := g.lines("Via", g.join(vias, r.Vlay)), g.lines("Route", g.join(rts, r.Rlay)), g.lines("Record-Route", g.join(rrs, r.Rrlay))
-	F := []vfHdr{{g.name("From"), g.pick("<sip:a@a.example>;tag=ft", "\"A\" <sip:a@a.example>;tag=ft", "sip:a@a.example;tag=ft")}}
+	F := []vfHdr{{g.name("From"), g.pick("<sip:a@a.example>;tag=ft", "\"A\" <sip:a@a.example>;tag=ft", "sip:a@a.example;tag=ft", "<sip:Alice@A.Example.COM>;tag=ft", "<sips:a@GW-1.Example.org:5071;x=Y>;tag=Ft")}}
 	T := []vfHdr{{g.name("To"), g.pick("<sip:b@"+tohost+">", "B <sip:b@"+tohost+">", "sip:b@"+tohost)}}
+	if g.decor == 1 && g.rnd.Intn(3) == 0 {
+		// an in-dialog request: both tags present (the proxy computes the dialog identity for it)
+		T[0].v = "<sip:b@" + tohost + ">;tag=tT-1"
+	}
 	M := []vfHdr{{g.name("Max-Forwards"), "70"}}
 	CL := vfHdr{g.name("Content-Length"), fmt.Sprint(len(body))}
 	C := []vfHdr{{g.name("Call-ID"), "cid1@" + g.base}, {g.name("CSeq"), "1 INVITE"}, CL}
@@ -448,8 +452,8 @@ func (g *vfGamma) responseParts(r *vfRecipe) (string, []vfHdr, []byte) {
 	X := g.extHeaders()
 	body := g.body()
 	V, R := g.lines("Via", g.join(st, r.Vlay)), g.lines("Record-Route", g.join(rrs, r.Rrlay))
-	F := []vfHdr{{g.name("From"), "<sip:a@a.example>;tag=ft"}}
-	T := []vfHdr{{g.name("To"), "<sip:b@e.x>;tag=tt"}}
+	F := []vfHdr{{g.name("From"), g.pick("<sip:a@a.example>;tag=ft", "<sip:Alice@A.Example.COM>;tag=ft", "\"A\" <sips:a@GW-1.Example.org:5071;x=Y>;tag=Ft")}}
+	T := []vfHdr{{g.name("To"), g.pick("<sip:b@e.x>;tag=tt", "<sip:Bob@B.Example.NET>;tag=tt", "<tel:+1555;phone-context=X.Example>;tag=Tt")}}
 	M := []vfHdr{{g.name("Max-Forwards"), "70"}}
 	CL := vfHdr{g.name("Content-Length"), fmt.Sprint(len(body))}
 	C := []vfHdr{{g.name("Call-ID"), "cid1@" + g.base}, {g.name("CSeq"), "1 INVITE"}, CL}
